@@ -146,6 +146,18 @@ def _branch_paths(check: Check, rule: str, cfg: CFG, br: ast.If, line_inc: str, 
             p = parent(s)
             if isinstance(p, ast.If) and "\n" in _const_strs(p.test) and "position + 1" in unparse(p.test):
                 ok = True
+        if not ok:
+            # the conditional-expression spelling: position += 2 if <next is LF> else 1 (the test possibly held in a local)
+            from sa.loader import enclosing_function
+            from sa.tables import inline_locals
+
+            for s in ast.walk(br):
+                if isinstance(s, ast.AugAssign) and unparse(s.target) == "position" and isinstance(s.op, ast.Add) and isinstance(s.value, ast.IfExp) \
+                        and unparse(s.value.body) == "2" and unparse(s.value.orelse) == "1":
+                    f_ = enclosing_function(s)
+                    t_ = inline_locals(s.value.test, f_) if f_ is not None else s.value.test
+                    if "\n" in _const_strs(t_) and "position + 1" in unparse(t_):
+                        ok = True
         check.ob(rule, br, f"{what}: CR LF consumed as one terminator", ok,
                  "position += 2 under a test that the next character is LF" if ok else "no two-character advance for CR LF")
 
